@@ -42,27 +42,24 @@ structure RS where
   cur : Bytes := []
   eod : Bool := false
   after : Bytes := []
-  size : Nat := 0
 deriving Repr, DecidableEq
 
-/-- `handle_finished_line` for the completed line `line` (= `lines[i]`). -/
+/-- Remove an initial period on non-EOD lines (RFC 821 4.5.2). -/
+def unstuffLine : Bytes → Bytes
+  | 46 :: rest => rest
+  | l => l
+
+/-- `handle_finished_line` for the completed line `line` (= `lines[i]`) while `EOD is None`. -/
 def finishLine (s : RS) (line : Bytes) : RS :=
-  if s.eod then { s with after := s.after ++ line }
-  else if isEodLine line then { s with eod := true, cur := [] }
-  else
-    let line' := match line with
-      | 46 :: rest => rest
-      | l => l
-    { s with data := s.data ++ line', cur := [] }
+  if isEodLine line then { s with eod := true, cur := [] }
+  else { s with data := s.data ++ unstuffLine line, cur := [] }
 
-/-- `_append_line(tail)` for the unfinished remainder of a piece. -/
-def appendPartial (s : RS) (tail : Bytes) : RS :=
-  if s.eod then { s with after := s.after ++ tail } else { s with cur := s.cur ++ tail }
-
-/-- `add_lines(piece)`: one `fullline_pattern` match at a time. -/
+/-- `add_lines(piece)`: one `fullline_pattern` match at a time. Once `EOD` is set the lines are
+    only collected (they become `recv_buffer` in `return_all`). -/
 def addLines (s : RS) (piece : Bytes) : RS :=
-  match h : splitLF piece with
-  | none => appendPartial s piece
+  if s.eod then { s with after := s.after ++ piece }
+  else match h : splitLF piece with
+  | none => { s with cur := s.cur ++ piece }
   | some (l, r) =>
     have : r.length < piece.length := splitLF_length h
     addLines (finishLine s (s.cur ++ l)) r
@@ -74,6 +71,8 @@ def feedByte (s : RS) (b : Byte) : RS :=
   else if b == 10 then finishLine s (s.cur ++ [b])
   else { s with cur := s.cur ++ [b] }
 
+def feed (s : RS) (bs : Bytes) : RS := bs.foldl feedByte s
+
 inductive Err | connectionLost | messageTooBig | wouldBlock
 deriving Repr, DecidableEq
 
@@ -83,23 +82,24 @@ structure Result where
   unread : List Bytes
 deriving Repr, DecidableEq
 
-/-- `recv()`'s loop after `from_recv_buffer`: pull pieces until EOD. `wouldBlock` = the scripted
-    socket has nothing more (the real reader would block). -/
+/-- `if self.max_size and self.size > self.max_size` -/
 def tooBig (maxSize : Option Nat) (size : Nat) : Bool :=
   match maxSize with
   | some m => m != 0 && size > m
   | none => false
 
-def recvLoop (maxSize : Option Nat) (s : RS) : List Bytes → Except Err Result
+/-- `recv()`'s loop after `from_recv_buffer`: pull pieces until EOD. `wouldBlock` = the scripted
+    socket has nothing more (the real reader would block). `size` counts received pieces only. -/
+def recvLoop (maxSize : Option Nat) (size : Nat) (s : RS) : List Bytes → Except Err Result
   | [] => if s.eod then .ok ⟨s.data, s.after, []⟩ else .error .wouldBlock
   | piece :: rest =>
     if s.eod then .ok ⟨s.data, s.after, piece :: rest⟩
     else if piece.isEmpty then .error .connectionLost
-    else if tooBig maxSize (s.size + piece.length) then .error .messageTooBig
-    else recvLoop maxSize (addLines { s with size := s.size + piece.length } piece) rest
+    else if tooBig maxSize (size + piece.length) then .error .messageTooBig
+    else recvLoop maxSize (size + piece.length) (addLines s piece) rest
 
 /-- `DataReader(io, max_size).recv()` with `io.recv_buffer = buf0` and the socket yielding `segs`. -/
 def run (maxSize : Option Nat) (buf0 : Bytes) (segs : List Bytes) : Except Err Result :=
-  recvLoop maxSize (addLines {} buf0) segs
+  recvLoop maxSize 0 (addLines {} buf0) segs
 
 end Slimta.Data
